@@ -345,6 +345,23 @@ pub fn check(case: &Case, idx: u64, acc: &mut Acc) {
             for (k, name) in order.iter().enumerate() {
                 acc.eval();
                 acc.nontrivial();
+                if k >= all.len() {
+                    // look-ups that fail (or are spelt differently) in between must leave nothing behind; their own
+                    // outcome is not judged here
+                    match k % 3 {
+                        0 => {
+                            let _ = get_calendar_by_name(&name.to_uppercase());
+                        }
+                        1 => {
+                            let _ = get_calendar_by_name("zzz");
+                            let _ = get_calendar_by_name(&name.to_uppercase());
+                        }
+                        _ => {
+                            let _ = NamedCal::try_new(&format!("{},zzz", name));
+                            let _ = get_calendar_by_name("zzz");
+                        }
+                    }
+                }
                 let cal = match get_calendar_by_name(name) {
                     Ok(c) => c,
                     Err(_) => {
@@ -571,7 +588,7 @@ pub fn run(ctx: &Ctx, replay_file: Option<String>) -> ! {
          one-offs) fires; weekends non-business; weekday non-holidays are business days. all/bus have no holidays. \
          fed == nyc minus Good Friday, date for date. tro tyo syd wlg mum: every weekday occurrence of each documented \
          fixed-date / Easter-linked holiday is a holiday (one-directional). Every name in the get_calendar docstring \
-         resolves. History independence: on one thread every name is resolved three times (in order, again, reversed) and named calendars 'a', 'a,b', 'a', 'b', 'b,a' are built for every ordered pair of the seven fully modelled calendars; every object obtained must still answer as its rules say. For the nine (fixing csv, calendar) pairs the calendar's business days over [first, last \
+         resolves. History independence: on one thread every name is resolved three times (in order, again, reversed) and named calendars 'a', 'a,b', 'a', 'b', 'b,a' are built for every ordered pair of the seven fully modelled calendars; with failing and differently spelt look-ups in between from the second pass on; every object obtained must still answer as its rules say. For the nine (fixing csv, calendar) pairs the calendar's business days over [first, last \
          publication] are exactly the publication dates. Non-trivial: weekday holidays / documented names / weekday \
          non-business days in a fixing period.",
         json!({"calendars": 14, "dates": 84371, "fixing_files": 9}),
